@@ -2,9 +2,9 @@
 generated and what counts as distinct / non-trivial, which clauses are theorems
 and which are carried by the oracle only, and the assumptions."""
 
-COMMON_RULE = ("inputs: every ordered pair of spike trains with <= 3 spikes on the grid {0,1/g,..,1} (g=6 quick, g=8 thorough; "
+COMMON_RULE = ("inputs: every ordered pair of spike trains with <= 3 (thorough: 4) spikes on the dyadic grid {0,1/8,..,1} ("
                "both edges included: every interleaving / tie / edge / one-spike / empty pattern of that size), crossed with "
-               "MRTS in {0,2/g,4/g,2} and max_tau in {0,1/g,2/g}; plus seeded random trains (<= 7 spikes, k/32 grid, forced shared "
+               "MRTS in {0,6/g,4/g,2,2/g} and max_tau in {0,1/g,2/g}; plus seeded random trains (<= 7 spikes, k/32 grid, forced shared "
                "spikes and edge spikes) and random lists of 2..5 trains; sharded over worker processes, both backends "
                "(Python fall-back and de-cythonised .pyx).  A case counts as distinct by its canonical argument encoding and "
                "as non-trivial if the trains involved hold >= 2 (lists: >= 3) spikes together.")
@@ -12,8 +12,16 @@ COMMON_RULE = ("inputs: every ordered pair of spike trains with <= 3 spikes on t
 META = {}
 
 
+ALWAYS = ("  In every correspondence stream one case in six is repeated shifted / scaled along the time axis (t -> k*t+c, k a power "
+          "of two, c dyadic, e.g. -16, +1000, *8-3; the model is exact over Q), and the adapters vary - deterministically - the "
+          "argument types (float / numpy.float64 / int / 0-d array; bool / numpy.bool_ / 0-1; integer spike arrays; "
+          "is_sorted=False on sorted data; interval as tuple or list) and the call forms (two trains / list of two / pair "
+          "selected by indices out of a longer list / positional trains / numpy index arrays).  One extra worker per backend "
+          "re-runs shard 0 with the library executing on exact rationals (compared with ==).")
+
+
 def meta(pid, proved, tested_only="", rule=COMMON_RULE, assumptions=None):
-    META[pid] = {"proved": proved, "tested_only": tested_only, "rule": rule,
+    META[pid] = {"proved": proved, "tested_only": tested_only, "rule": rule + ALWAYS,
                  "assumptions": assumptions or []}
 
 
